@@ -97,11 +97,30 @@ def locator_item(entries, locator_type=VHDX_LOCATOR_TYPE, order=None):
     for k, v in entries:
         blobs.append((k.encode("utf-16-le"), v.encode("utf-16-le")))
     idx = list(range(len(entries)))
-    if order is not None:
+    if order is not None and order != "shared":
         idx = list(order)
     pos = table_len
     where = {}
     data = b""
+    if order == "shared":
+        # every string is stored once; a string that is the beginning (or any aligned part) of one already stored points into it
+        def place(b):
+            nonlocal data
+            at = data.find(b)
+            while at >= 0 and at % 2:
+                at = data.find(b, at + 1)
+            if at < 0:
+                at = len(data)
+                data += b
+            return table_len + at
+
+        todo = sorted([(len(b), i, j) for i, kv in enumerate(blobs) for j, b in enumerate(kv)], reverse=True)
+        offs = {}
+        for _ln, i, j in todo:
+            offs[(i, j)] = place(blobs[i][j])
+        for i in range(len(entries)):
+            where[i] = (offs[(i, 0)], offs[(i, 1)])
+        idx = []
     for i in idx:
         kb, vb = blobs[i]
         where[i] = (pos, pos + len(kb))
